@@ -43,7 +43,11 @@ RULE = (
     "dayOfYear for every day 1896..2104, seconds2hms for every TT value s+dAT+32.184 and s+dAT+33 (s = every whole "
     "second of the day, dAT = every TAI offset of the table), utc2TerrestrialTime at every such whole-minute TT +-1 s, "
     "every 10th second and every anomaly, GMST/GAST lattices; (f) rot1/2/3, skewSymmetric, dotRot identities; an "
-    "exception raised inside the implementation on a lattice input is a violation. non-trivial = date is a "
+    "exception raised inside the implementation on a lattice input is a violation; (g) every state-vector transform "
+    "on the same numbers given as int64 / int32 / float32 / strided / read-only ndarrays must return the float64 result "
+    "and leave its input unmodified; (h) reduction matrices, ECI<->ECEF states, Julian date and TT under four host time "
+    "zones (POSIX TZ strings with daylight saving rules) at the corner dates and hour by hour through the switch-over "
+    "days must be bit-identical to the UTC host's. non-trivial = date is a "
     "day/month/year/leap boundary (or the instant crosses a minute/hour/day roll-over in UT1 or TT), or the "
     "position/site lies on an axis, pole, equator or antimeridian, or (helpers) the argument sits on a branch point, or "
     "(d2) the observer's Earth-fixed speed is >= 0.01 km/s; "
@@ -152,7 +156,7 @@ def _dt(s) -> datetime:
 
 
 def items(tier, seed):
-    out = [("maths", seed), ("anchor", seed), ("loader_api", seed), ("rswntw", seed, tier)]
+    out = [("maths", seed), ("anchor", seed), ("loader_api", seed), ("rswntw", seed, tier), ("repr", seed), ("hosttz", seed)]
     for y0 in range(1896, 2105, 19):
         out.append(("dayofyear", y0, min(y0 + 18, 2104)))
     for dat in sorted({row["dat"] for row in fr.eop_table()[0].values()}):
@@ -1376,6 +1380,132 @@ def _run_rswntw(res, item):
     _run_spherical(res, item)
 
 
+
+# ---------------------------------------------------------------------------------------------- input representation
+def _variants(x64):
+    """The same numbers in other legal ndarray representations (dtype / memory layout)."""
+    x64 = np.asarray(x64, dtype=np.float64)
+    out = []
+    if np.all(x64 == np.round(x64)):
+        out.append(("int64", x64.astype(np.int64)))
+        out.append(("int32", x64.astype(np.int32)))
+    if np.all(x64.astype(np.float32).astype(np.float64) == x64):
+        out.append(("float32", x64.astype(np.float32)))
+    wide = np.zeros(2 * x64.size)
+    wide[::2] = x64
+    out.append(("strided_view", wide[::2]))
+    out.append(("reversed_view", x64[::-1].copy()[::-1]))
+    ro = x64.copy()
+    ro.setflags(write=False)
+    out.append(("read_only", ro))
+    return out
+
+
+def _run_repr(res, item):
+    """Every state-vector transform on the same numbers given as int / float32 / strided / read-only arrays: the result
+    must be the float64 result (the functions document ndarray inputs; a result computed or stored in the input's dtype
+    truncates the state).  Inputs are left unmodified."""
+    _, seed = item
+    t = CORNER_DATES[9]
+    lat, lon = 35.0 * DEG, -106.0 * DEG
+    states = [np.array([6378.0, 0.0, 1000.0, 1.0, -2.0, 3.0]), np.array([0.0, 0.0, 1.0, 0.0, 0.0, 0.0]),
+              np.array([-7000.0, 1200.0, 4.0, 2.0, 7.0, -1.0]), np.array([6524.5, 6862.75, 6448.25, 4.5, 5.25, -1.75])]
+    obs = np.array([6378.0, 100.0, 200.0, -0.25, 0.5, 0.0])
+    fns = [
+        ("eci2ecef", lambda x: M.eci2ecef(x, t)), ("ecef2eci", lambda x: M.ecef2eci(x, t)),
+        ("sez2ecef", lambda x: M.sez2ecef(x, lat, lon)), ("ecef2sez", lambda x: M.ecef2sez(x, lat, lon)),
+        ("eci2sez", lambda x: M.eci2sez(x, lat, lon, t)), ("sez2eci", lambda x: M.sez2eci(x, lat, lon, t)),
+        ("ecef2lla", lambda x: M.ecef2lla(x)), ("eci2lla", lambda x: M.eci2lla(x, t)),
+        ("eci2rsw_rel", lambda x: M.eci2rsw(obs + np.array([0, 0, 0, 7.0, 0.0, 1.0]), x)),
+        ("rsw2eci_rel", lambda x: M.rsw2eci(obs + np.array([0, 0, 0, 7.0, 0.0, 1.0]), x)),
+        ("ntw2eci_rel", lambda x: M.ntw2eci(obs + np.array([0, 0, 0, 7.0, 0.0, 1.0]), x)),
+        ("eci2rsw_ref", lambda x: M.eci2rsw(x, obs)), ("rsw2eci_ref", lambda x: M.rsw2eci(x, obs)),
+        ("ntw2eci_ref", lambda x: M.ntw2eci(x, obs)),
+        ("cartesian2spherical", lambda x: np.array(M.cartesian2spherical(x))),
+        ("sez2razel", lambda x: np.array(M.sez2razel(x))),
+        ("eci2radec", lambda x: M.eci2radec(x, obs, t)), ("eci2radec_obs", lambda x: M.eci2radec(obs * 2.0, x, t)),
+        ("eci2razel", lambda x: np.array(M.eci2razel(x, obs, t))),
+        ("getSlantRangeVector", lambda x: M.getSlantRangeVector(obs, x, t)),
+        ("getSlantRangeVector_obs", lambda x: M.getSlantRangeVector(x, obs * 2.0, t)),
+        ("teme2ecef", lambda x: M.teme2ecef(x, t)),
+    ]
+    for name, fn in fns:
+        for x in states:
+            try:
+                base = np.asarray(fn(x.copy()), dtype=float)
+            except Exception:  # noqa: BLE001  (a function refusing this state in float64 is not this family's subject)
+                continue
+            if not _finite(base):
+                continue  # e.g. the azimuth at the zenith: undefined in float64 too, not this family's subject
+            scale = max(1.0, float(np.max(np.abs(base))))
+            for label, v in _variants(x):
+                keep = np.array(v, copy=True)
+                case = {"function": name, "x": [float(q) for q in x], "representation": label}
+                try:
+                    got = np.asarray(fn(v), dtype=float)
+                    err = None
+                except Exception as exc:  # noqa: BLE001
+                    got, err = None, f"{type(exc).__name__}: {exc}"[:200]
+                # float32 input: numpy may carry single precision through (1e-7 relative per operation); a result
+                # stored in an integer dtype, or in float32 from integers, is off by order one
+                tol = (2e-5 if label == "float32" else 1e-9) * scale
+                ok = err is None and got.shape == base.shape and _finite(got) and _maxabs(got, base) <= tol
+                res.case("repr/same_result", case, bool(ok), nontrivial=True, signature=f"C04/repr/{name}/{label}",
+                         observed=err or got, expected=base, item=item)
+                res.case("repr/input_unmodified", case, bool(np.array_equal(np.asarray(v), keep)), nontrivial=True,
+                         signature=f"C04/repr/{name}/{label}/input_modified", observed=np.asarray(v, dtype=float), expected=keep.astype(float), item=item)
+            res.observe(base)
+
+
+# ---------------------------------------------------------------------------------------------- host time zone
+HOST_TZS = ["EST5EDT,M3.2.0,M11.1.0", "AEST-10AEDT,M10.1.0,M4.1.0", "IST-5:30", "<+14>-14"]
+
+
+def _run_hosttz(res, item):
+    """Every instant is UTC whatever the HOST's time zone is (POSIX TZ strings, no tzdata needed): reduction matrices,
+    the Earth-fixed state and the sidereal helpers are bit-identical under every host zone, at corner dates and hour by
+    hour through the days on which these zones switch daylight saving time."""
+    import os  # noqa: PLC0415
+    import time as _time  # noqa: PLC0415
+
+    _, seed = item
+    instants = list(CORNER_DATES)
+    for d0 in (datetime(2021, 3, 14), datetime(2021, 11, 7), datetime(2021, 10, 2), datetime(2021, 4, 3), datetime(2021, 4, 4)):
+        instants += [d0 + timedelta(hours=h, minutes=30, seconds=(seed * 7 + h) % 60) for h in range(24)]
+    x = np.array([6524.834, 6862.875, 6448.296, 4.901327, 5.533756, -1.976341])
+
+    def snapshot():
+        out = {}
+        for t in instants:
+            rp = red.ReductionParams.build(t)
+            out[t] = (np.asarray(rp.rot_pnr, dtype=float).tobytes(), np.asarray(rp.rot_w, dtype=float).tobytes(),
+                      np.asarray(M.eci2ecef(x, t), dtype=float).tobytes(), np.asarray(M.ecef2eci(x, t), dtype=float).tobytes(),
+                      float(datetimeToJulianDate(t)), repr(tconv.utc2TerrestrialTime(t.year, t.month, t.day, t.hour, t.minute, t.second + t.microsecond / 1e6, 37)))
+        return out
+
+    old = os.environ.get("TZ")
+    try:
+        os.environ["TZ"] = "UTC0"
+        _time.tzset()
+        base = snapshot()
+        for tz in HOST_TZS:
+            os.environ["TZ"] = tz
+            _time.tzset()
+            got = snapshot()
+            for t in instants:
+                labels = ("rot_pnr", "rot_w", "eci2ecef", "ecef2eci", "julian_date", "terrestrial_time")
+                bad = [labels[i] for i in range(len(labels)) if got[t][i] != base[t][i]]
+                res.case("hosttz/same_as_utc_host", {"host_TZ": tz, "t": _iso(t), "utc_offset_s": -_time.timezone},
+                         not bad, nontrivial=True, signature=f"C04/hosttz/{bad[0] if bad else ''}",
+                         observed=bad, expected="bit-identical to the same call under a UTC host", item=item)
+                res.observe(not bad)
+    finally:
+        if old is None:
+            os.environ.pop("TZ", None)
+        else:
+            os.environ["TZ"] = old
+        _time.tzset()
+
 # ---------------------------------------------------------------------------------------------- dispatch
 _RUNNERS = {
     "maths": _run_maths,
@@ -1393,6 +1523,8 @@ _RUNNERS = {
     "razel": _run_razel,
     "razel_moving": _run_razel_moving,
     "rswntw": _run_rswntw,
+    "repr": _run_repr,
+    "hosttz": _run_hosttz,
 }
 
 
